@@ -130,6 +130,19 @@ def install_hooks():
                 sched.point('payload<' + name)
         return func
     S.FunctionDefinition.get_delegate = get_delegate
+    # evaluations that parse (yaql.eval of a not yet cached expression, YaqlInterface('...')) also step through the lexer
+    import ply.lex
+    L = ply.lex.Lexer
+    o_token, o_input = L.token, L.input
+
+    def token(self):
+        sched.point('token')
+        return o_token(self)
+
+    def input(self, text):
+        sched.point('input')
+        return o_input(self, text)
+    L.token, L.input = token, input
 
 
 # ---------------------------------------------------------------------------
